@@ -107,8 +107,8 @@ const strAxioms = `(define-fun str_hasprefix ((s Seq_Int) (p Seq_Int)) Bool (and
 (assert (forall ((s Seq_Int) (c Int) (j Int)) (! (=> (and (<= 0 j) (< j (len_Int s)) (= (at_Int s j) c)) (>= (str_lastindexb s c) j)) :pattern ((str_lastindexb s c) (at_Int s j)))))
 (declare-fun str_index (Seq_Int Seq_Int) Int)
 (declare-fun str_lastindex (Seq_Int Seq_Int) Int)
-(assert (forall ((s Seq_Int) (n Seq_Int)) (! (and (<= (- 1) (str_index s n)) (<= (+ (str_index s n) (len_Int n)) (len_Int s)) (=> (>= (str_index s n) 0) (= (sub_Int s (str_index s n) (+ (str_index s n) (len_Int n))) n))) :pattern ((str_index s n)))))
-(assert (forall ((s Seq_Int) (n Seq_Int)) (! (and (<= (- 1) (str_lastindex s n)) (<= (+ (str_lastindex s n) (len_Int n)) (len_Int s)) (=> (>= (str_lastindex s n) 0) (= (sub_Int s (str_lastindex s n) (+ (str_lastindex s n) (len_Int n))) n))) :pattern ((str_lastindex s n)))))
+(assert (forall ((s Seq_Int) (n Seq_Int)) (! (and (<= (- 1) (str_index s n)) (=> (>= (str_index s n) 0) (and (<= (+ (str_index s n) (len_Int n)) (len_Int s)) (= (sub_Int s (str_index s n) (+ (str_index s n) (len_Int n))) n)))) :pattern ((str_index s n)))))
+(assert (forall ((s Seq_Int) (n Seq_Int)) (! (and (<= (- 1) (str_lastindex s n)) (=> (>= (str_lastindex s n) 0) (and (<= (+ (str_lastindex s n) (len_Int n)) (len_Int s)) (= (sub_Int s (str_lastindex s n) (+ (str_lastindex s n) (len_Int n))) n)))) :pattern ((str_lastindex s n)))))
 (declare-fun str_le (Seq_Int Seq_Int) Bool)
 (assert (forall ((a Seq_Int)) (! (str_le a a) :pattern ((str_le a a)))))
 (assert (forall ((a Seq_Int) (b Seq_Int)) (! (or (str_le a b) (str_le b a)) :pattern ((str_le a b)))))
@@ -304,6 +304,23 @@ func init() {
 		}
 		return []Term{r}
 	})
+	reg("slices.Sorted", "slices.Sorted(maps.Keys(m)) for a map with string keys: THE ascending duplicate-free enumeration of m's key set (uniqueness of the sorted enumeration of a set is a mathematical fact used as an axiom); other uses: uninterpreted", func(fv *FuncVerifier, st *State, env *Env, c *CallCtx) []Term {
+		if inner, ok := ast.Unparen(c.call.Args[0]).(*ast.CallExpr); ok {
+			if fn, ok := calleeOf(env.info, inner).(*types.Func); ok && fn.FullName() == "maps.Keys" {
+				m := fv.eval(st, env, inner.Args[0])
+				if fv.w.IsMap(m.Sort) && fv.w.mapKV[m.Sort][0] == "Seq_Int" {
+					dom := App("(Array Seq_Int Bool)", "dom_"+mapX(m.Sort), m)
+					r := fv.sortedKeys(dom)
+					st.Assume(eqT(fv.w.SeqLen(r), fv.w.MapLen(m)))
+					return []Term{r}
+				}
+			}
+		}
+		return fv.freshResults(st, c.sig)
+	})
+	reg("maps.Keys", "maps.Keys(m): an iterator over m's keys (only modelled under slices.Sorted)", func(fv *FuncVerifier, st *State, env *Env, c *CallCtx) []Term {
+		return []Term{fv.fresh("keysiter", SRef)}
+	})
 	// ---- errors / fmt ----
 	reg("errors.New", "errors.New: a non-nil error (deterministic in its text)", func(fv *FuncVerifier, st *State, env *Env, c *CallCtx) []Term {
 		r := fv.uf("errors_new", SRef, "", c.args[0])
@@ -402,6 +419,27 @@ func (fv *FuncVerifier) sortedOf(x Term) Term {
 		}
 	}
 	return App(ss, "str_sorted", x)
+}
+
+// sortedKeys: THE ascending duplicate-free enumeration of a set of strings (map domain).
+func (fv *FuncVerifier) sortedKeys(dom Term) Term {
+	fv.strDefs()
+	fv.sortedOf(fv.w.SeqEmpty(fv.w.SeqSort("Seq_Int")))
+	ss := fv.w.SeqSort("Seq_Int")
+	ax := `(declare-fun skidx ((Array Seq_Int Bool) Seq_Int) Int)
+(declare-fun enum_str (Seq_Seq_Int (Array Seq_Int Bool)) Bool)
+(assert (forall ((d (Array Seq_Int Bool)) (i Int)) (! (=> (and (<= 0 i) (< i (len_Seq_Int (sortedkeys d)))) (and (select d (at_Seq_Int (sortedkeys d) i)) (= (skidx d (at_Seq_Int (sortedkeys d) i)) i))) :pattern ((at_Seq_Int (sortedkeys d) i)))))
+(assert (forall ((d (Array Seq_Int Bool)) (k Seq_Int)) (! (=> (select d k) (and (<= 0 (skidx d k)) (< (skidx d k) (len_Seq_Int (sortedkeys d))) (= (at_Seq_Int (sortedkeys d) (skidx d k)) k))) :pattern ((skidx d k)) :pattern ((sortedkeys d) (select d k)))))
+(assert (forall ((d (Array Seq_Int Bool)) (i Int) (j Int)) (! (=> (and (<= 0 i) (< i j) (< j (len_Seq_Int (sortedkeys d)))) (and (str_le (at_Seq_Int (sortedkeys d) i) (at_Seq_Int (sortedkeys d) j)) (not (= (at_Seq_Int (sortedkeys d) i) (at_Seq_Int (sortedkeys d) j))))) :pattern ((at_Seq_Int (sortedkeys d) i) (at_Seq_Int (sortedkeys d) j)))))
+(assert (forall ((ks Seq_Seq_Int) (d (Array Seq_Int Bool))) (! (=> (enum_str ks d) (= (str_sorted ks) (sortedkeys d))) :pattern ((enum_str ks d)))))
+`
+	fv.w.UFun("sortedkeys", []Sort{"(Array Seq_Int Bool)"}, ss, ax)
+	if d := fv.w.defs["ufun:sortedkeys"]; len(d.Syms) == 1 {
+		d.Syms = append(d.Syms, "skidx", "enum_str")
+		fv.w.bySym["skidx"] = d
+		fv.w.bySym["enum_str"] = d
+	}
+	return App(ss, "sortedkeys", dom)
 }
 
 // packAny boxes the variadic ...any tail into one Seq_Ref term.
